@@ -26,8 +26,26 @@ import (
 
 func init() {
 	commands["compile-one"] = compileOne
+	commands["gogen-one"] = gogenOne
 	commands["cgen"] = cgen
 	commands["crun"] = crun
+}
+
+// gogen-one: go:generate mode with a file suffix and a build tag of the caller's choosing
+func gogenOne(args []string) {
+	fs := flag.NewFlagSet("gogen-one", flag.ExitOnError)
+	dir := fs.String("dir", "", "")
+	suffix := fs.String("suffix", "co", "")
+	tag := fs.String("tag", "co", "")
+	fs.Parse(args)
+	defer func() {
+		if r := recover(); r != nil {
+			fmt.Printf("PANIC %s\n", strings.ReplaceAll(fmt.Sprint(r), "\n", " "))
+			os.Exit(3)
+		}
+	}()
+	rewriter.GoGen(*dir, rewriter.WithFileSuffix(*suffix), rewriter.WithBuildTag(*tag))
+	fmt.Println("OK")
 }
 
 // compile-one: run the real compiler on one source directory; a compiler panic becomes exit status 3
